@@ -7,6 +7,7 @@ import (
 	"strconv"
 	"testing"
 
+	"github.com/33cn/chain33/types"
 	"pgregory.net/rapid"
 	"verifharness/chainfix"
 	"verifharness/lib"
@@ -21,11 +22,13 @@ type restartOrder struct {
 	Order []int    `json:"order"`
 	Pids  []int    `json:"pids"`
 	Cuts  []int    `json:"restartAfter"` // the node is restarted after these many deliveries (ascending)
+	Late  bool     `json:"enableLate"`   // sequence recording is off until the first restart and on afterwards (the log is back-filled at start-up)
 }
 
 var restartSerial int
 
-func runRestartOrder(t lib.TB, test string, bt *builtTree, c restartOrder) (restartsAfterReorg, delRecords int) {
+func runRestartOrder(t lib.TB, test string, bt *builtTree, c restartOrder) (restartsAfterReorg, delRecords int, enabledLateAt int64) {
+	enabledLateAt = -1
 	restartSerial++
 	dir := filepath.Join(os.Getenv("VERIF_WORK"), "c26r", strconv.Itoa(os.Getpid())+"-"+strconv.Itoa(restartSerial))
 	if os.Getenv("VERIF_WORK") == "" {
@@ -33,10 +36,17 @@ func runRestartOrder(t lib.TB, test string, bt *builtTree, c restartOrder) (rest
 	}
 	_ = os.RemoveAll(dir)
 	defer os.RemoveAll(dir)
-	n := chainfix.OpenPersistent(dir)
+	recOff := func(cfg *types.Chain33Config) { cfg.GetModuleConfig().BlockChain.IsRecordBlockSequence = false }
+	recording := !c.Late
+	var n *chainfix.PNode
+	if c.Late {
+		n = chainfix.OpenPersistent(dir, recOff)
+	} else {
+		n = chainfix.OpenPersistent(dir)
+	}
 	defer func() { n.Close() }()
 	cfg := n.Cfg
-	if last, err := n.Chain.GetStore().LoadBlockLastSequence(); err != nil || last != 0 {
+	if last, err := n.Chain.GetStore().LoadBlockLastSequence(); recording && (err != nil || last != 0) {
 		lib.Inconclusive("fixture: fresh persistent node has last sequence %d (%v)", last, err)
 	}
 	g, err := n.Chain.GetBlock(0)
@@ -44,6 +54,9 @@ func runRestartOrder(t lib.TB, test string, bt *builtTree, c restartOrder) (rest
 		lib.Inconclusive("fixture: genesis of the persistent node differs from the builder's")
 	}
 	check := func(stage string) int {
+		if !recording {
+			return 0
+		}
 		return seqLogOracle(t, test, c, n.Chain.GetStore(), n.Chain.GetBlockHeight(), stage)
 	}
 	cut := 0
@@ -56,7 +69,11 @@ func runRestartOrder(t lib.TB, test string, bt *builtTree, c restartOrder) (rest
 			hBefore := n.Chain.GetBlockHeight()
 			tipBefore := n.Chain.GetStore().LastHeader().Hash
 			n.Close()
-			n = chainfix.OpenPersistent(dir)
+			n = chainfix.OpenPersistent(dir) // recording on (the default) from here
+			if !recording {
+				recording = true
+				enabledLateAt = hBefore
+			}
 			if n.Chain.GetBlockHeight() != hBefore || !bytes.Equal(n.Chain.GetStore().LastHeader().Hash, tipBefore) {
 				lib.Inconclusive("fixture: the re-opened node is at height %d, was at %d", n.Chain.GetBlockHeight(), hBefore)
 			}
@@ -92,8 +109,13 @@ func TestPropSeqLogRestart(t *testing.T) {
 		if p != len(order) {
 			c.Cuts = append(c.Cuts, len(order))
 		}
+		c.Late = rapid.IntRange(0, 2).Draw(t, "enableLate") == 0
 		lib.Eval()
-		rr, dels := runRestartOrder(t, "TestPropSeqLogRestart", bt, c)
+		rr, dels, late := runRestartOrder(t, "TestPropSeqLogRestart", bt, c)
+		if late > 0 {
+			lib.Class("recording_enabled_on_existing_chain")
+			lib.NonTrivialCase(c)
+		}
 		lib.Class("restart")
 		if dels > 0 {
 			lib.Class("log_with_delete_records")
